@@ -7,6 +7,7 @@ import "github.com/RoaringBitmap/roaring"
 func init() {
 	verifHarnesses["HarnessC03Keys"] = HarnessC03Keys
 	verifHarnesses["HarnessC03Hist"] = HarnessC03Hist
+	verifHarnesses["HarnessC03Names"] = HarnessC03Names
 }
 
 // expression templates over three leaves of three different columns (independent row sets)
@@ -138,15 +139,30 @@ func verifRunHistory(d *verifData, idx *Index, hist []*verifT, tag string) {
 	mask := verifMask(d.n)
 	for hi, t := range hist {
 		q := &Query{Expr: t.expr()}
+		gcol := -1
 		if hi%2 == 0 {
-			q.GroupBy = []string{"a"} // grouping reads the result and the stored bitmaps too
+			// grouping reads the result and the stored bitmaps too (and may use the cache itself)
+			gcol = []int{0, 2}[verifChoice("groupcol", 2)]
+			q.GroupBy = []string{d.cols[gcol]}
 		}
 		res, err := idx.Execute(q)
 		verifAssert(err == nil, tag+": query returned an error")
 		if err != nil {
 			return
 		}
-		verifAssert(res.Count == verifCard(t.den(sets, mask)), tag+": result differs from what a fresh cache-less index returns for this query")
+		den := t.den(sets, mask)
+		verifAssert(res.Count == verifCard(den), tag+": result differs from what a fresh cache-less index returns for this query")
+		if gcol >= 0 {
+			// every column holds one value: one group with the rows carrying it, or none
+			in := den & sets[gcol]
+			if in == 0 {
+				verifAssert(len(res.Groups) == 0, tag+": a group without rows was returned")
+			} else {
+				ok := len(res.Groups) == 1 && len(res.Groups[0].Fields) == 1 && res.Groups[0].Fields[0].Column == d.cols[gcol] &&
+					res.Groups[0].Fields[0].Value == d.vals[gcol][0] && res.Groups[0].Count == verifCard(in)
+				verifAssert(ok, tag+": groups differ from what a fresh cache-less index returns for this query")
+			}
+		}
 	}
 	for i := range verifC03Leaves {
 		t := &verifT{kind: 0, leaf: i}
@@ -265,7 +281,7 @@ func HarnessC03Hist() {
 	list := []*verifT{
 		a, not(a), not(not(a)), and(a, b), and(b, a), or(a, b), and(a, a), and(b, b), or(a, a),
 		and(or(a, c), or(b, c)), and(not(a), not(b)), not(or(a, b)), and(a), or(a), and(a, b, c), and(and(a, b), c),
-		or(and(a, b), c), and(or(a, b), c),
+		or(and(a, b), c), and(or(a, b), c), or(a, b, c), or(c, a),
 	}
 	d := verifC03Data("c03h.updog")
 	n := 2
@@ -290,6 +306,47 @@ func HarnessC03Hist() {
 	}
 	idx := d.open(verifBool("preload"), cache)
 	verifRunHistory(d, idx, hist, "C03 history")
+	idx.Close()
+	verifReach("end")
+}
+
+// HarnessC03Names: column names and values that mimic the textual form of expressions
+// (Expression.String() prints "(EQUAL column \"value\")" with the column unquoted): a cache
+// key derived from any rendering in which names are not delimited collides for these. Two
+// queries on one caching index, each compared with its own denotation.
+func HarnessC03Names() {
+	odd := `a "a0") (EQUAL b` // AND(odd="b0") prints like AND(a="a0", b="b0")
+	d := verifNewData("c03n.updog", []string{"a", "b", odd}, [][]string{{"a0"}, {"b0"}, {"b0"}})
+	d.build()
+	sa, sb, so := d.sets[0][0], d.sets[1][0], d.sets[2][0]
+	mask := verifMask(d.n)
+	eq := func(c, v string) Expression { return &ExprEqual{Column: c, Value: v} }
+	type nq struct {
+		e   Expression
+		den uint64
+	}
+	qs := []nq{
+		{&ExprAnd{Exprs: []Expression{eq("a", "a0"), eq("b", "b0")}}, sa & sb},
+		{&ExprAnd{Exprs: []Expression{eq(odd, "b0")}}, so},
+		{&ExprOr{Exprs: []Expression{eq("a", "a0"), eq("b", "b0")}}, sa | sb},
+		{&ExprOr{Exprs: []Expression{eq(odd, "b0")}}, so},
+		{&ExprNot{Expr: &ExprAnd{Exprs: []Expression{eq("a", "a0"), eq("b", "b0")}}}, ^(sa & sb) & mask},
+		{&ExprNot{Expr: &ExprAnd{Exprs: []Expression{eq(odd, "b0")}}}, ^so & mask},
+	}
+	var cache Cache = NewLRUCache(^uint64(0))
+	if verifBool("keep-cache") {
+		cache = &verifKeepCache{}
+	}
+	idx := d.open(verifBool("preload"), cache)
+	for i := 0; i < 2; i++ {
+		q := qs[verifChoice("query", len(qs))]
+		res, err := idx.Execute(&Query{Expr: q.e})
+		verifAssert(err == nil, "C03 names: query returned an error")
+		if err != nil {
+			return
+		}
+		verifAssert(res.Count == verifCard(q.den), "C03 names: with column names that mimic expression syntax, a query on a caching index returned the result of another expression")
+	}
 	idx.Close()
 	verifReach("end")
 }
